@@ -724,7 +724,17 @@ impl Gen {
             // re-point the engine's fee pool at a plain account and back
             let cur = r.obs.eng.as_ref().map(|e| e.fee_pool.clone()).unwrap_or_default();
             let to = if cur == r.w.addrs.fee_pool { "newowner".to_string() } else { "@fp".to_string() };
-            return Step::new(&roles.engine_owner, Op::EngineConfig { owner: None, insurance_fund: None, fee_pool: Some(to), initial: None, maintenance: None, partial: None, liq_fee: None });
+            // alone, or in one call with other fields (restating their current values)
+            let e = r.obs.eng.clone().unwrap_or_default();
+            let (mut ifd, mut i, mut l) = (None, None, None);
+            if rng.chance(1, 2) {
+                match rng.below(3) {
+                    0 => ifd = Some(e.insurance_fund.clone()),
+                    1 => i = Some(e.initial),
+                    _ => l = Some(e.liq_fee),
+                }
+            }
+            return Step::new(&roles.engine_owner, Op::EngineConfig { owner: None, insurance_fund: ifd, fee_pool: Some(to), initial: i, maintenance: None, partial: None, liq_fee: l });
         }
         let choice = rng.below(if prop == "C09" || prop == "C14" { 24 } else { 18 });
         match choice {
